@@ -5,7 +5,8 @@ wall time is only measured for the evidence file."""
 import json, os, subprocess, sys, time, shutil, hashlib, copy, re
 
 VERIF = os.path.dirname(os.path.dirname(os.path.abspath(__file__)))
-SIM = os.path.join(VERIF, "sim")
+# lib/seedtest_wt.sh points this at a copy of sim/ whose path dependencies lead to a patched scratch worktree
+SIM = os.environ.get("VERIF_SIM_DIR") or os.path.join(VERIF, "sim")
 TARGET = os.path.join(SIM, "target", "release")
 # seeded-change runs (lib/seedtest.sh) redirect both so that committed evidence only ever comes from the unchanged tree
 EVID = os.environ.get("VERIF_EVIDENCE_DIR") or os.path.join(VERIF, "evidence")
